@@ -383,6 +383,19 @@ else:
 L.append("/-- `zero_right_pad_integer_ascii_digits`: zero count above which an integer is not padded when no precision is given -/")
 L.append("def noPadLimit (cfg : Config) : Nat := %s" % npl_expr)
 L.append("")
+etp = dict(site_ids).get("expTermPrecision", "MISSING")
+m1 = re.fullmatch(r"(\d+) \+ precision", etp)
+m2 = re.fullmatch(r"target_precision \+ (\d+) \+ precision", etp)
+if m1:
+    etp_expr = "%s + digits" % m1.group(1)
+elif m2:
+    etp_expr = "cfg.precision + %s + digits" % m2.group(1)
+else:
+    missing.append("expTermPrecision")
+    etp_expr = "0"
+L.append("/-- : significant digits requested from  for each series term ( = digits of x) -/")
+L.append("def expTermPrecision (cfg : Config) (digits : Nat) : Nat := %s" % etp_expr)
+L.append("")
 L.append("/-- identifiers referenced at the implicit-default sites (C20) -/")
 L.append("def defaultSites : List (String × String) := [")
 L.append(",\n".join('  ("%s", "%s")' % (a, b.replace('"', "'")) for a, b in site_ids))
